@@ -30,7 +30,8 @@ TInit == \E t \in 1..Len(Traces) :
            /\ ms = RunF(InitMs(Traces[t].init), Traces[t].hist, Traces[t].from - 1)
            /\ nv = {}
 
-PropertyClauses(step) == C03Clauses(step) \cup C05Clauses(step)
+PropertyClauses(step) == C03Clauses(step) \cup C05Clauses(step) \cup C18Clauses(step)
+                         \cup C09Clauses(step) \cup C08Clauses(step) \cup C12Clauses(step)
 DriftClauses(r, step) == {M_Names(r.st, r.res, step), M_Con(r.st, step), M_Exc(r, step)}
 
 Report(T, n, step, cls) ==
